@@ -2,9 +2,9 @@
 package c02
 
 import (
-	"strings"
 	"encoding/json"
 	"fmt"
+	"strings"
 
 	"verif/harness/gen"
 	"verif/harness/mon"
@@ -80,7 +80,9 @@ func generate(w *mon.W) {
 			"top1":   func() *Op { return &Op{K: "top", X: Num("1"), Terms: []SortTerm{{X: Name("id"), Dir: "asc"}}} },
 			"count":  func() *Op { return &Op{K: "count"} },
 			"sumall": func() *Op { return &Op{K: "summarize", Cols: []Col{{Name: id("id"), X: Call("count")}}} },
-			"sumby":  func() *Op { return &Op{K: "summarize", Cols: []Col{{Name: id("n"), X: Call("count")}}, HasBy: true, By: []Col{{Name: id("id"), X: Bin("%", Name("id"), Num("2"))}}} },
+			"sumby": func() *Op {
+				return &Op{K: "summarize", Cols: []Col{{Name: id("n"), X: Call("count")}}, HasBy: true, By: []Col{{Name: id("id"), X: Bin("%", Name("id"), Num("2"))}}}
+			},
 			"never":  func() *Op { return &Op{K: "where", X: Bin("<", Name("id"), Num("0"))} },
 			"always": func() *Op { return &Op{K: "where", X: Bin(">=", Name("id"), Num("0"))} },
 			"sort":   func() *Op { return &Op{K: "sort", Terms: []SortTerm{{X: Name("id"), Dir: "desc"}}} },
